@@ -1357,7 +1357,17 @@ class Expr:
         # See legacy codegen: vyper/codegen/self_call.py (contains_self_call handling)
         arg_vals: list[VyperValue] = []
         for arg_node in all_arg_nodes:
-            arg_vals.append(Expr(arg_node, self.ctx).lower())
+            arg_val = Expr(arg_node, self.ctx).lower()
+            # arguments are passed by value and evaluated left to right:
+            # read the argument now, so that the side effects of a later
+            # argument (e.g. a call which writes the storage variable that
+            # was passed as an earlier argument) can not change its value.
+            if arg_val.location is not None:
+                if arg_val.typ._is_prim_word:
+                    arg_val = VyperValue.from_stack_op(self.ctx.unwrap(arg_val), arg_val.typ)
+                elif arg_val.location != DataLocation.MEMORY:
+                    arg_val = self.ctx.materialize_value(arg_val)
+            arg_vals.append(arg_val)
 
         # Now allocate staging buffers and copy evaluated values
         for i, arg_val in enumerate(arg_vals):
